@@ -91,6 +91,11 @@ func init() {
 		"errors.New":               hNewError,
 		"context.WithValue":        hCtxWithValue,
 		"slices.Contains":          hSlicesContains,
+		"crypto/elliptic.P224":     hNonNilIface("crypto/elliptic.P224"),
+		"crypto/elliptic.P256":     hNonNilIface("crypto/elliptic.P256"),
+		"crypto/elliptic.P384":     hNonNilIface("crypto/elliptic.P384"),
+		"crypto/elliptic.P521":     hNonNilIface("crypto/elliptic.P521"),
+		"crypto/x509.ParseCertificate": hPtrOrErr("crypto/x509.ParseCertificate"),
 	}
 }
 
@@ -285,4 +290,28 @@ func containsTerm(st *State, s Val, v Val) *Term {
 func hSlicesContains(x *Exec, fr *Frame, st *State, site ssa.Instruction, callee *ssa.Function, args []Val, k Kont) {
 	x.assumeNote("assumed contract slices.Contains: reports whether v is present in s (exists k: s[k] == v); pure")
 	k(st, Val{T: types.Typ[types.Bool], C: []*Term{containsTerm(st, args[0], args[1])}}, false)
+}
+
+// hNonNilIface: a constructor returning a non-nil interface value.
+func hNonNilIface(name string) stdHandler {
+	return func(x *Exec, fr *Frame, st *State, site ssa.Instruction, callee *ssa.Function, args []Val, k Kont) {
+		x.assumeNote("assumed contract " + name + ": returns a non-nil value, no side effect")
+		res := freshVal(callee.Signature.Results().At(0).Type(), "curve")
+		x.assumeWF(st, res)
+		st.assume(Not(Eq(res.C[0], IntConst(0))))
+		k(st, res, false)
+	}
+}
+
+// hPtrOrErr: (ptr, err) with err == nil ==> ptr != nil; reads its arguments only.
+func hPtrOrErr(name string) stdHandler {
+	return func(x *Exec, fr *Frame, st *State, site ssa.Instruction, callee *ssa.Function, args []Val, k Kont) {
+		x.assumeNote("assumed contract " + name + ": a nil error comes with a non-nil result; reads its arguments only")
+		res := freshVal(callee.Signature.Results(), "parsed")
+		x.assumeWF(st, res)
+		st.havocAlloc()
+		n := len(res.C)
+		st.assume(Implies(Eq(res.C[n-2], IntConst(0)), Not(Eq(res.C[0], IntConst(0)))))
+		k(st, res, false)
+	}
 }
